@@ -24,6 +24,11 @@ CLAIMED = {
          'components (tags in PHA/MC_PHA) and the statement is evaluated on files from real ROI models simulated on synthetic GTIs.',
          'Lean kernel (core only); hand-written model + generators; numpy.argsort instability on equal times (excluded); astropy I/O; GTI filtering itself is decided under C03/C18; '
          'xBinarySource components are not GTI-filtered (known finding listed under C03).'),
+ 'C18': ('proof', 'Lean 4 theorems about models of the GTI algebra, the timeline epoch selection and _bin_gti, tied by exact differential correspondence',
+         'filter_exact/filter_sublist/mask_aligned, complement_tiles, gti_list_spec/octi_list_spec/gti_list_duration (padding and minimum duration), epoch_flags_constant '
+         '(centre bisection = every interior point), binGti_eq (the four-way break/continue loop equals the sum of overlaps on sorted disjoint GTIs) and bin_gti_needs_sorted; '
+         'models compared exactly with xGTIList, xObservationTimeline (synthetic epochs, several queries per object) and xEventBinningLC._bin_gti; LC EXPOSURE through the real xpbin.',
+         'Lean kernel (core only); hand-written models + generators; the trajectory layer that locates SAA/occultation boundaries is not modelled (needs the emptied ephemeris); numpy.searchsorted; astropy I/O.'),
 }
 NOT_YET = 'check not built yet in this round (work in progress; see DESIGN.md section 7 for the planned model and theorems)'
 
